@@ -346,6 +346,8 @@ def bytes_to_element(bytes):
     P = bytes_to_unknown_group_element(bytes)
     if P is Zero:
         raise ValueError("element was Zero")
+    if P.to_bytes() != bytes:
+        raise ValueError("element encoding is not canonical")
     if not is_extended_zero(P.scalarmult(L).XYTZ):
         raise ValueError("element is not in the right group")
     # the point is in the expected 1*L subgroup, not in the 2/4/8 groups,
